@@ -30,6 +30,8 @@ from ioflo.aid import vectoring as V
 PROPERTY = "C44"
 ENGINE = "E2"
 TECHNIQUE = "source->SMT translation (linear integer / real arithmetic), polygons enumerated, point symbolic"
+LEVEL_TEXT = "source->SMT, linear arithmetic: every simple polygon (all vertex orders) with 3-4 vertices on the 3x3 grid (quick), plus 5 vertices on 3x3 and 3-4 vertices on 4x4 (thorough: 29 400 polygons), query point an unbounded symbolic integer (thorough also real) pair; eight predicates per polygon against an ear-clipping oracle; every query unsat"
+LEVEL_NOTE = "polygons concrete, point symbolic (both symbolic is nonlinear and was measured unknown); the oracle is cross-checked per polygon against an exact crossing-number computation; trusted: astsmt translator (validated each run incl. the repo test polygons), z3 5.1"
 FUNCTIONS = ["ioflo.aid.vectoring." + n for n in ("wind", "inside", "insideOnly", "outside", "outsideOnly", "sideOnly",
                                                     "tween2", "sub", "dot", "mag2", "trip", "cw", "ccw")]
 ASSUMPTIONS = [
@@ -288,7 +290,7 @@ def ob_polys(sess, params):
 
 def obligations(tier):
     run = A.run_obligation(ob_polys, None, 30000)
-    plan = [("g3/n3/int", 3, 3, "int", 3), ("g3/n4/int", 3, 4, "int", 11)]
+    plan = [("g3/n3/int", 3, 3, "int", 4), ("g3/n4/int", 3, 4, "int", 12)]
     if tier == "thorough":
         plan = [("g3/n3/int", 3, 3, "int", 2), ("g3/n4/int", 3, 4, "int", 4), ("g3/n5/int", 3, 5, "int", 8),
                 ("g4/n3/int", 4, 3, "int", 10), ("g4/n4/int", 4, 4, "int", 56),
